@@ -225,7 +225,10 @@ func msetPayload(c *Ctx) []byte {
 	case 2: // non-message payload
 		return c.Bytes(1 + c.Intn(6))
 	case 4: // long payload (length prefixes of two and three bytes once chunks are merged)
-		n := []int{60, 100, 127, 128, 200, 8000, 16383, 16384}[c.Intn(8)]
+		n := []int{60, 100, 127, 128, 200}[c.Intn(5)]
+		if c.Intn(40) == 0 {
+			n = []int{8000, 16383, 16384}[c.Intn(3)]
+		}
 		b = protowire.AppendTag(b, protowire.Number(4+c.Intn(60)), protowire.BytesType)
 		return protowire.AppendBytes(b, c.Bytes(n))
 	case 3: // number above MaxValidNumber at top level
